@@ -165,8 +165,12 @@ void DerivArrayEvaluator::operator()(Opcode::Opcode op, Clause::Id id,
 
         case Opcode::OP_NTH_ROOT:
             for (Eigen::Index i=0; i < od.cols(); ++i)
+            {
+                const float base = (av(i) < 0 && fmodf(bv(i), 2.0f) == 1.0f)
+                    ? -av(i) : av(i);
                 od.col(i) = (ad.col(i) == 0)
-                    .select(0, ad.col(i) * (powf(av(i), 1.0f / bv(i) - 1) / bv(i)));
+                    .select(0, ad.col(i) * (powf(base, 1.0f / bv(i) - 1) / bv(i)));
+            }
             break;
         case Opcode::OP_MOD:
             od = ad;
